@@ -717,6 +717,23 @@ func (e *Engine) doExtreme(s *slot, op Op) error {
 	}); p != "" {
 		return e.outcome(op.Op, what, p)
 	}
+	if s.twin != nil && e.asserted("twin") {
+		var tk []byte
+		var tv int
+		var tok bool
+		if p := call(func() {
+			if op.Op == "min" {
+				tk, tv, tok = s.twin.Minimum()
+			} else {
+				tk, tv, tok = s.twin.Maximum()
+			}
+		}); p != "" {
+			return violf("%s on the fresh twin did not return normally: %s", what, p)
+		}
+		if tok != gok || tv != gv || !bytes.Equal(tk, gk) {
+			return violf("%s gives (%s,%d,%v) on the emptied tree but (%s,%d,%v) on a fresh tree", what, s.kind.Show(gk), gv, gok, s.kind.Show(tk), tv, tok)
+		}
+	}
 	if !e.asserted(op.Op) {
 		return nil
 	}
